@@ -118,8 +118,8 @@ type request struct {
 	amt  int64
 	sev  sdk.Dec
 	hdr  abci.Header
-	resA string // consensus-relevant response of instance A
-	acl  bool   // an accepted change of gov/acl
+	resA string  // consensus-relevant response of instance A
+	acl  bool    // an accepted change of gov/acl
 	msg  sdk.Msg // HM: a message handed to the governance handler directly
 }
 
@@ -141,12 +141,13 @@ type hist struct {
 	dead    bool
 	pubAddr map[string]string // pubkey bytes -> address
 	// hand-overs proposed by the latest gov/acl change: (parameter, previous owner, next owner)
-	handover [][3]string
-	forced   []txSpec
-	db       dbm.DB
-	cp       *abci.ConsensusParams // given at InitChain (nil: none)
-	slotMates []key // validators that began unstaking in one block (one queue slot), in the order they were queued
-	stranded *key // a jailed, staked validator whose stake a parameter change has just put below the minimum
+	dupho     [][3]string // keys the latest gov/acl change lists twice: (parameter, owner by the first entry, owner by the later entry)
+	handover  [][3]string
+	forced    []txSpec
+	db        dbm.DB
+	cp        *abci.ConsensusParams // given at InitChain (nil: none)
+	slotMates []key                 // validators that began unstaking in one block (one queue slot), in the order they were queued
+	stranded  *key                  // a jailed, staked validator whose stake a parameter change has just put below the minimum
 	// genesis accounts whose recorded public key is somebody else's (address -> that key)
 	foreignKey map[string]key
 	// the node's transaction index (filled at Commit) and the committed transactions that may be replayed
@@ -1200,6 +1201,7 @@ func runHistory(r *rng.R, id, maxBlocks int, wo, wi *bufio.Writer) {
 			cur := h.app.GK.GetACL(sdk.NewContext(h.app.Store(), abci.Header{}, false, nil))
 			next := govTypes.ACL{}
 			h.handover = nil
+			h.dupho = nil
 			drop := -1
 			if h.r.Chance(1, 3) {
 				drop = h.r.Intn(len(cur) + 1)
@@ -1225,6 +1227,16 @@ func runHistory(r *rng.R, id, maxBlocks int, wo, wi *bufio.Writer) {
 				next = append(next, govTypes.ACLPair{Key: p.Key, Addr: a})
 				parts = append(parts, hx([]byte(p.Key))+"="+hx(a))
 				stats["tx/acl-with-a-key-listed-twice"]++
+				// followed up like a hand-over: the owner named by the FIRST entry must be accepted, the one named further down refused
+				for _, q := range next {
+					if q.Key == p.Key {
+						if !a.Equals(q.Addr) {
+							h.dupho = append(h.dupho, [3]string{p.Key, string(q.Addr), string(a)})
+							stats["tx/acl-with-a-key-listed-twice-under-two-owners"]++
+						}
+						break
+					}
+				}
 			}
 			js, _ := h.app.Cdc.MarshalJSON(next)
 			return js, fmt.Sprintf("acl:%s:%s:1", strings.Join(parts, ";"), hx(js))
@@ -1497,10 +1509,14 @@ func runHistory(r *rng.R, id, maxBlocks int, wo, wi *bufio.Writer) {
 			h.reqs = append(h.reqs, request{kind: "TX", tx: bz, resA: deliverString(res), acl: res.Code == 0 && strings.Contains(t.spec, ":acl:")})
 			stats[fmt.Sprintf("tx/%s/%s:%d", strings.SplitN(t.spec, ":", 2)[0], res.Codespace, res.Code)]++
 			// right after an accepted hand-over, in the same block: the previous owner must be refused, the next one accepted
-			if res.Code == 0 && strings.Contains(t.spec, ":acl:") && len(h.handover) > 0 && r.Chance(4, 5) {
+			if res.Code == 0 && strings.Contains(t.spec, ":acl:") && len(h.handover)+len(h.dupho) > 0 && r.Chance(4, 5) {
 				var cands []paramChoice
 				var who [][3]string
-				for _, ho := range h.handover {
+				list := h.handover
+				if len(h.dupho) > 0 { // a key listed twice under two owners: both of them try, the first entry's owner first
+					list = h.dupho
+				}
+				for _, ho := range list {
 					for _, pc := range paramPool {
 						if pc.key == ho[0] {
 							cands = append(cands, pc)
@@ -1510,16 +1526,26 @@ func runHistory(r *rng.R, id, maxBlocks int, wo, wi *bufio.Writer) {
 				}
 				if len(cands) > 0 {
 					j := r.Intn(len(cands))
-					from := h.keyOf(sdk.Address(who[j][1+r.Intn(2)]), h.keys[0])
-					val, model := cands[j].gen(h)
-					ft := txSpec{signer: from, attached: &from, wrongSub: -1}
-					ft.msg = govTypes.MsgChangeParam{FromAddress: from.addr, ParamKey: cands[j].key, ParamVal: val}
-					ft.spec = fmt.Sprintf("param:%s:%s:%s", hx(from.addr), hx([]byte(cands[j].key)), model)
-					ft.fee = h.app.AK.GetParams(sdk.NewContext(h.app.Store(), abci.Header{}, false, nil)).FeeMultiplier.GetFee(ft.msg).Int64()
-					h.forced = append(h.forced, ft)
-					stats["tx/followup-after-handover"]++
+					senders := []int{1 + r.Intn(2)}
+					if len(h.dupho) > 0 {
+						senders = []int{1, 2}
+					}
+					for _, si := range senders {
+						from := h.keyOf(sdk.Address(who[j][si]), h.keys[0])
+						val, model := cands[j].gen(h)
+						ft := txSpec{signer: from, attached: &from, wrongSub: -1}
+						ft.msg = govTypes.MsgChangeParam{FromAddress: from.addr, ParamKey: cands[j].key, ParamVal: val}
+						ft.spec = fmt.Sprintf("param:%s:%s:%s", hx(from.addr), hx([]byte(cands[j].key)), model)
+						ft.fee = h.app.AK.GetParams(sdk.NewContext(h.app.Store(), abci.Header{}, false, nil)).FeeMultiplier.GetFee(ft.msg).Int64()
+						h.forced = append(h.forced, ft)
+						stats["tx/followup-after-handover"]++
+						if len(h.dupho) > 0 {
+							stats["tx/followup-after-key-listed-twice"]++
+						}
+					}
 				}
 			}
+			h.dupho = nil
 			h.handover = nil
 			// two validators in one slot of the unstaking queue: right after an accepted begin-unstake another staked validator
 			// begins unstaking in the same block (same completion time); evidence against the one queued FIRST follows
@@ -1725,7 +1751,9 @@ func (h *hist) genesisWithADuplicate(gen *simapp.Genesis) {
 		g2.Pos = bad
 		app := simapp.New(dbm.NewMemDB(), "tcp://127.0.0.1:1", &g2)
 		var res abci.ResponseInitChain
-		if m := tryMsg(func() { res = app.InitChain(abci.RequestInitChain{ChainId: simapp.ChainID, Time: time.Unix(1600000000, 0).UTC()}) }); m != "" {
+		if m := tryMsg(func() {
+			res = app.InitChain(abci.RequestInitChain{ChainId: simapp.ChainID, Time: time.Unix(1600000000, 0).UTC()})
+		}); m != "" {
 			verdict += " InitChain-panics"
 		} else {
 			verdict += " InitChain-returns=" + strings.ReplaceAll(updatesString(res.Validators), " ", "_")
@@ -1733,6 +1761,7 @@ func (h *hist) genesisWithADuplicate(gen *simapp.Genesis) {
 	}
 	fmt.Fprintf(gv, "%d duplicate-of-a-listed-validator at=%d of=%d %s\n", h.id, at, len(vals)+1, verdict)
 }
+
 var inflight string
 
 func tryMsg(f func()) (msg string) {
